@@ -761,6 +761,31 @@ def rule_queued_ends_detached(chk, prog):
     (r.bad if bad else r.ok)("processActions (obstacle removal)", fn.loc(cand[0][0]) if cand else fn.loc(dels[0]), bad or "")
 
 
+def rule_delete_api(chk, prog):
+    r = chk.rule("ROUTER-DELETE-API", "the objects handed to Router::deleteShape / deleteJunction / deleteConnector / deleteCluster are owned by the "
+                 "router (their destructors abort when anybody else deletes them): on every path each of the four either deletes its argument "
+                 "or queues the removal action whose processing deletes it -- none merely unlinks the object", floor=4)
+    for q, arg in (("Avoid::Router::deleteShape", "shape"), ("Avoid::Router::deleteJunction", "junction"), ("Avoid::Router::deleteConnector", "connector"),
+                   ("Avoid::Router::deleteCluster", "cluster")):
+        fn = prog.fn(q)
+        g = CFG(fn)
+        pname = fn.params[0]["name"] if fn.params else arg
+        frees = [n["id"] for n in fn.nodes() if n.get("k") == "CXXDeleteExpr" and norm(n["ch"][0]) == pname and n.get("id") in g.pos]
+        queued = [c["id"] for c in fn.nodes() if c.get("k") in ("CXXConstructExpr", "CXXTemporaryObjectExpr") and c.get("cname") == "Avoid::ActionInfo"
+                  and any("Remove" in norm(a) for a in c.get("ch", [])[:1]) and c.get("id") in g.pos]
+        if not queued:
+            for c in fn.nodes():
+                if c.get("k") in ("CXXConstructExpr", "CXXTemporaryObjectExpr") and c.get("cname") == "Avoid::ActionInfo" and any("Remove" in norm(a) for a in c.get("ch", [])[:1]):
+                    anc = [a for a in fn.ancestors(c) if a.get("id") in g.pos]
+                    if anc:
+                        queued.append(anc[0]["id"])
+        r.count()
+        w = g.exit_reachable_avoiding(frees + queued) if (frees or queued) else []
+        (r.ok if w is None else r.bad)(q, fn.where(), "" if w is None else
+                                       "a path through %s neither deletes `%s` nor queues its removal%s: the object is unlinked from the router and "
+                                       "never freed (nobody else may delete it)" % (q.split("::")[-1], pname, (" (" + g.describe(w) + ")") if w else ""))
+
+
 _VERTEX_NEVER_LISTED = {
     "Avoid::delete_vertex::operator()": "the spanning-tree builder's extraVertices are created with `new VertInf` and never handed to VertInfList::addVertex",
     "Avoid::Obstacle::~Obstacle": "asserts m_active == false: Obstacle::makeInactive has already taken the polygon's vertices off the router's list",
@@ -1027,5 +1052,6 @@ def run(chk):
     chk.guard(rule_ctor_order, chk, prog, cg)
     chk.guard(rule_connend_deref, chk, prog)
     chk.guard(rule_queued_ends_detached, chk, prog)
+    chk.guard(rule_delete_api, chk, prog)
     chk.guard(rule_set_keys_frozen, chk, prog)
     chk.guard(rule_stale_solver_pointer, chk, prog)
